@@ -1749,7 +1749,7 @@ def handler_stmt_race_run(prop: str, workload: str, j_sym: Any, k_sym: Any, pick
                           compare: str = "reference", max_k: int = 90, a_pick_sym: Any = 0,
                           inject: Callable[[World], None] | None = None, post: Callable[[World, dict[str, Any], Any], tuple[str, Any] | None] | None = None,
                           k2_sym: Any = None, pick2_sym: Any = 0, wide: bool = False, delayed: bool = False,
-                          pre_choices: list[Any] | None = None, hold_sym: Any = None, hold_n_sym: Any = 0) -> bool:
+                          pre_choices: list[Any] | None = None, hold_sym: Any = None, hold_n_sym: Any = 0, quiescent: bool = True) -> bool:
     """Two workers, one pre-emption, every pair of handlers the run offers: the handler of the j-th
     delivered message (worker A) is stopped just before its k-th SQL statement and another
     deliverable message (the pick-th of those visible at that instant) is handled completely by
@@ -1897,7 +1897,7 @@ def handler_stmt_race_run(prop: str, workload: str, j_sym: Any, k_sym: Any, pick
                     bad = MONITORS[m](w, spec)
                     if bad is not None:
                         return P.fail("%s/handler_race/%s/%s/%s" % (prop, workload, what, bad[0]), {**info, "detail": bad[1]})
-                q = quiescent_ok(snap)
+                q = quiescent_ok(snap) if quiescent else None
                 if q is not None:
                     return P.fail("%s/handler_race/%s/%s/not_quiescent/%s" % (prop, workload, what, state_sig(summ)), {**info, "why": q})
                 if post is not None:
@@ -2026,3 +2026,13 @@ def commit_fault_run(prop: str, workload: str, k_sym: Any, monitors: tuple[str, 
             finally:
                 HOOKS.on_commit = None
                 w.close()
+
+
+def inject_cancel_running_stage(w: World) -> None:
+    """A CancelStage for a currently RUNNING top-level stage is queued (what CancelWorkflow's fan-out,
+    CancelRegion or a failing sibling's CompleteWorkflow do) - the oldest RUNNING stage."""
+    from stabilize.queue.messages import CancelStage
+
+    rows = w.q("SELECT id FROM stage_executions WHERE execution_id=? AND status='RUNNING' AND parent_stage_id IS NULL ORDER BY id", w.workflow_id)
+    if rows:
+        w.queue.push(CancelStage(execution_id=w.workflow_id, stage_id=rows[0]["id"]))
